@@ -68,7 +68,7 @@ def opQuery (env : Env) (s df : Bytes) : String :=
   match p with
   | .ok e =>
     let fS := outStr ptStr (e.string env.isPrint)
-    let fG := outStr ptStr (e.goString env.isPrint)
+    let fG := "ok:" ++ ptStr (outPT (e.goString env.isPrint))   -- `%#v` goes through fmt, which recovers a panicking GoString
     let fJ := outStr toHex (marshalExpr e)
     let fPG := outStr toHex (render pgFns e)
     let fPP := outStr (fun (x : Bytes × List Prim) => toHex x.1 ++ "|" ++ canonParams x.2) (renderParam pgFns e)
@@ -83,7 +83,7 @@ def opUnjson (env : Env) (data : Bytes) : String :=
   | .ok e =>
     let fV := if validateExpr e then "1" else "0"
     let fS := outStr ptStr (e.string env.isPrint)
-    let fG := outStr ptStr (e.goString env.isPrint)
+    let fG := "ok:" ++ ptStr (outPT (e.goString env.isPrint))   -- `%#v` goes through fmt, which recovers a panicking GoString
     let fJ := outStr toHex (marshalExpr e)
     let fR := outStr toHex (render pgFns e)
     let fRP := outStr (fun (x : Bytes × List Prim) => toHex x.1 ++ "|" ++ canonParams x.2) (renderParam pgFns e)
@@ -113,6 +113,18 @@ def opRender (desc tree : String) : String :=
       outStr (fun (x : Bytes × List Prim) => toHex x.1 ++ "|" ++ canonParams x.2) (renderParam fns e)
   | _, _ => "bad-input"
 
+/-- op `spec`: executable spec predicates judged on the IMPLEMENTATION's outputs -/
+def opSpec (name : String) (args : List String) : String :=
+  match name, args with
+  | "wellformed", [tree] =>
+    (match parseCanonExpr tree with
+     | some e =>
+       if !validateExpr e then "0:the tree does not pass the model of expr.Validate"
+       else if !wellFormed e then "0:the tree fails the independent shape check (field positions / range bounds / value lists / unary operands / patterns)"
+       else "1"
+     | none => "0:unreadable tree")
+  | _, _ => "bad-spec"
+
 /-- op `lex`: the token stream -/
 def opLex (env : Env) (s : Bytes) : String :=
   let r := lexAll env.cls (decode s)
@@ -125,6 +137,7 @@ def handle (env : Env) (line : String) : String :=
   | ["lex", s] => opLex env (hexOr s)
   | ["uj", d] => opUnjson env (hexOr d)
   | ["render", desc, tree] => opRender desc tree
+  | "spec" :: name :: args => opSpec name args
   | ["ping"] => "pong"
   | _ => "bad-op"
 
